@@ -20,6 +20,7 @@ HARNESS = os.path.join(HERE, 'harness')
 JOBS = int(os.environ.get('VERIF_JOBS', '16'))
 
 COMMON = ['-DBR_SLOW_MUL15=1', '-DBR_LE_UNALIGNED=0', '-DBR_BE_UNALIGNED=0', '-DBR_VERIF']
+COMMON_NOMUL = [f for f in COMMON if not f.startswith('-DBR_SLOW_MUL15')]
 SAN = ['-fsanitize=address,undefined', '-fno-sanitize-recover=all']
 NOSEED = ['-DBR_USE_GETENTROPY=0', '-DBR_USE_URANDOM=0', '-DBR_RDRAND=0',
           '-DBR_USE_WIN32_RAND=0', '-DBR_USE_ESP8266_RAND=0', '-DBR_USE_PICO_RAND=0']
@@ -47,12 +48,23 @@ FLAVOURS = {
     'ct-Os': dict(cc='gcc', cflags=['-Os', '-g', '-DBR_VERIF_VALGRIND'] + COMMON, ldflags=[]),
     'ct-O2': dict(cc='gcc', cflags=['-O2', '-g', '-DBR_VERIF_VALGRIND'] + COMMON, ldflags=[]),
     'plain': dict(cc='gcc', cflags=['-O2', '-g'] + COMMON, ldflags=[]),
+    # the arithmetic configurations other ports of this tree compile (config.h), under the same sanitizers:
+    # native 15x15 multiplications; a 32-bit-only target with slow, low-half multiplier; constant-time
+    # multiplication macros with the portable arithmetic shift
+    'alt-mul15': dict(cc='gcc', cflags=['-O1', '-g', '-fno-omit-frame-pointer'] + SAN + COMMON_NOMUL + ['-DBR_SLOW_MUL15=0'],
+                      ldflags=SAN),
+    'alt-32': dict(cc='gcc', cflags=['-O1', '-g', '-fno-omit-frame-pointer'] + SAN + COMMON +
+                   ['-DBR_64=0', '-DBR_INT128=0', '-DBR_UMUL128=0', '-DBR_LOMUL=1', '-DBR_SLOW_MUL=1'], ldflags=SAN),
+    'alt-ctmul': dict(cc='gcc', cflags=['-O1', '-g', '-fno-omit-frame-pointer'] + SAN + COMMON +
+                      ['-DBR_NO_ARITH_SHIFT=1', '-DBR_CT_MUL31=1', '-DBR_CT_MUL15=1'], ldflags=SAN),
+    # what conf/Unix.mk and the ESP8266 port ship: -Os, no instrumentation (oracles only)
+    'os': dict(cc='gcc', cflags=['-Os', '-g'] + COMMON, ldflags=[]),
 }
 
 
 if os.environ.get('VERIF_COV'):
     # line-coverage survey of the workloads (tools/coverage.py): gcc flavours only
-    for _f in ('asan', 'noseed', 'plain', 'sys-ge', 'sys-ur'):
+    for _f in ('asan', 'noseed', 'plain', 'sys-ge', 'sys-ur', 'alt-mul15', 'alt-32', 'alt-ctmul', 'os'):
         FLAVOURS[_f]['cflags'] = FLAVOURS[_f]['cflags'] + ['--coverage']
         FLAVOURS[_f]['ldflags'] = FLAVOURS[_f]['ldflags'] + ['--coverage']
 
